@@ -77,6 +77,18 @@ def spreadEdgeAnchor (cfg : Cfg Val) (n : Nat) (ea : Option Val) (nd1 : Nat) : P
       let _ ← writeAttr cfg stVA vid (edgeToVertexVal a)
       pure ()
 
+/-- the `if let Some(a) = e_anchor { … }` block of `cut_outer_edge` (/repo 27a7433): the new vertex gets
+    `VertexAnchor::from(a)` and the second half of the cut edge (the new dart `nd3`) gets `a` itself -/
+def spreadEdgeAnchorOuter (cfg : Cfg Val) (n : Nat) (ea : Option Val) (nd1 nd3 : Nat) : P Val Unit :=
+  match ea with
+  | none => pure ()
+  | some a => do
+      let vid ← vertexId2 n nd1
+      let _ ← writeAttr cfg stVA vid (edgeToVertexVal a)
+      let eid ← edgeId2 nd3
+      let _ ← writeAttr cfg stEA eid a
+      pure ()
+
 /-- `cut_outer_edge(t, map, e, [nd1, nd2, nd3])` -/
 def cutOuterEdge (cfg : Cfg Val) (n e nd1 nd2 nd3 : Nat) : P Val Unit := do
   iLinkCore 2 nd1 nd2
@@ -89,7 +101,9 @@ def cutOuterEdge (cfg : Cfg Val) (n e nd1 nd2 nd3 : Nat) : P Val Unit := do
   let vid1 ← vertexId2 n ld
   let vid2 ← vertexId2 n b1ld
   let newV ← midpointOrRetry vid1 vid2
-  let _ ← writeVtx nd1 newV
+  -- /repo aac3ec9: the midpoint is stored under the identifier of the new vertex (`nd1`, `nd3` already share it)
+  let newVid ← vertexId2 n nd1
+  let _ ← writeVtx newVid newV
   oneUnsew2 cfg n ld
   oneUnsew2 cfg n b1ld
   oneSew2 cfg n ld nd1
@@ -97,7 +111,7 @@ def cutOuterEdge (cfg : Cfg Val) (n e nd1 nd2 nd3 : Nat) : P Val Unit := do
   oneSew2 cfg n nd3 b1ld
   oneSew2 cfg n b1ld nd2
   spreadFaceAnchor cfg n fAnchor nd1 nd2
-  spreadEdgeAnchor cfg n eAnchor nd1
+  spreadEdgeAnchorOuter cfg n eAnchor nd1 nd3
 
 /-- `cut_inner_edge(t, map, e, [nd1, nd2, nd3, nd4, nd5, nd6])` -/
 def cutInnerEdge (cfg : Cfg Val) (n e nd1 nd2 nd3 nd4 nd5 nd6 : Nat) : P Val Unit := do
@@ -117,7 +131,9 @@ def cutInnerEdge (cfg : Cfg Val) (n e nd1 nd2 nd3 nd4 nd5 nd6 : Nat) : P Val Uni
   let vid1 ← vertexId2 n ld
   let vid2 ← vertexId2 n b1ld
   let newV ← midpointOrRetry vid1 vid2
-  let _ ← writeVtx nd1 newV
+  -- /repo aac3ec9: the midpoint is stored under the identifier of the new vertex (`nd1`, `nd3` already share it)
+  let newVid ← vertexId2 n nd1
+  let _ ← writeVtx newVid newV
   twoUnsew2 cfg n ld
   oneUnsew2 cfg n ld
   oneUnsew2 cfg n b1ld
